@@ -110,6 +110,44 @@ def run_variant(args):
     return (v["id"], kind, "ok", "")
 
 
+EQUIV_DIR = os.path.join(os.path.dirname(os.path.dirname(os.path.dirname(os.path.abspath(__file__)))), "equiv")
+
+
+def run_equiv(args):
+    """a behaviour-preserving refactoring (unified diff kept under /verif/equiv) must leave the rules silent;
+    it is applied to a scratch copy of the package under $TMPDIR which is removed afterwards"""
+    import shutil
+    import subprocess
+    import tempfile
+    root, patch, rules = args
+    from .. import props  # noqa: F401
+    from ..runner import run_rules, RULES as _R
+    name = "equiv/" + os.path.basename(patch)
+    d = tempfile.mkdtemp(prefix="sa_eq_")
+    try:
+        shutil.copytree(os.path.join(root, "lbfgsb"), os.path.join(d, "lbfgsb"))
+        r = subprocess.run(["patch", "-p1", "-s", "-f", "-d", d, "-i", patch], capture_output=True, text=True)
+        if r.returncode != 0:
+            return (name, "Q", "n/a", "")
+        try:
+            obs = run_rules(Repo(d), [x for x in rules if x in _R])
+        except AnalysisError as e:
+            return (name, "Q", "fail", f"ANALYSIS-ERROR on a behaviour-preserving refactoring: {str(e)[:200]}")
+        bad = [o for o in obs if not o.ok]
+        if bad:
+            o = bad[0]
+            return (name, "Q", "fail", f"false alarm {o.rule} {o.file}:{o.line} {o.construct[:60]} -> {o.fact[:120]}")
+        return (name, "Q", "ok", "")
+    finally:
+        shutil.rmtree(d, ignore_errors=True)
+
+
+def equiv_patches() -> List[str]:
+    if not os.path.isdir(EQUIV_DIR):
+        return []
+    return sorted(os.path.join(EQUIV_DIR, f) for f in os.listdir(EQUIV_DIR) if f.endswith(".diff"))
+
+
 def _select(rules: List[str], canary_only: bool):
     load()
     ms = [m for m in MUTANTS if (not rules or set(m["rules"]) & set(rules)) and (m["canary"] or not canary_only)]
@@ -128,11 +166,12 @@ def run_for_property(pid: str, spec: dict, root: str, tier: str) -> dict:
     # restrict each variant to the rules of this property
     jobs = [(root, {**m, "rules": [r for r in m["rules"] if r in spec["rules"]]}, "M") for m in ms] + \
            [(root, {**q, "rules": [r for r in q["rules"] if r in spec["rules"]]}, "Q") for q in qs]
-    if tier == "thorough" and len(jobs) > 8:
-        with ProcessPoolExecutor(max_workers=min(16, len(jobs))) as ex:
-            res = list(ex.map(run_variant, jobs))
+    eq = [(root, p, spec["rules"]) for p in equiv_patches()] if tier == "thorough" else []
+    if tier == "thorough" and len(jobs) + len(eq) > 8:
+        with ProcessPoolExecutor(max_workers=min(16, len(jobs) + len(eq))) as ex:
+            res = list(ex.map(run_variant, jobs)) + list(ex.map(run_equiv, eq))
     else:
-        res = [run_variant(j) for j in jobs]
+        res = [run_variant(j) for j in jobs] + [run_equiv(e) for e in eq]
     out = {"mutants_run": 0, "mutants_fired": 0, "equivalents_run": 0, "equivalents_silent": 0,
            "not_applicable": [], "failed": [], "fired": []}
     for vid, kind, st, msg in res:
@@ -156,11 +195,13 @@ def run_for_property(pid: str, spec: dict, root: str, tier: str) -> dict:
 def run_all(root: str, rules: List[str], jobs: int, verbose: bool) -> int:
     ms, qs = _select(rules, False)
     work = [(root, m, "M") for m in ms] + [(root, q, "Q") for q in qs]
+    from ..runner import RULES as _R
+    eq = [(root, p, rules or sorted(_R)) for p in equiv_patches()]
     if jobs > 1 and len(work) > 4:
         with ProcessPoolExecutor(max_workers=jobs) as ex:
-            res = list(ex.map(run_variant, work))
+            res = list(ex.map(run_variant, work)) + list(ex.map(run_equiv, eq))
     else:
-        res = [run_variant(w) for w in work]
+        res = [run_variant(w) for w in work] + [run_equiv(e) for e in eq]
     fails = 0
     for vid, kind, st, msg in res:
         if st == "fail":
